@@ -26,7 +26,7 @@ builtins_set = set(__builtins__.keys())
 other_common_names_set = {'datetime', 'time', 'date', 'defaultdict', 'schema'}
 # names the generated modules import: a class or a field with one of these names would shadow the import
 imported_names_set = {'Any', 'Dict', 'List', 'Literal', 'Optional', 'Union', 'BaseModel', 'Field', 'SQLModel',
-                      'attr', 'dataclass', 'field', 'ClassType', 'convert_strings', 'IntString', 'FloatString',
+                      'attr', 'optional', 'dataclass', 'field', 'ClassType', 'convert_strings', 'IntString', 'FloatString',
                       'BooleanString', 'IsoDateString', 'IsoTimeString', 'IsoDatetimeString'}
 blacklist_words = frozenset(keywords_set | builtins_set | other_common_names_set | imported_names_set)
 ones = ['', 'one', 'two', 'three', 'four', 'five', 'six', 'seven', 'eight', 'nine']
